@@ -44,7 +44,7 @@ def gen(rng, tier):
         cmds = [gens.parse_cmd(0, b"/l/t.conf", twin, b"=", b"#"), "getall 0",
                 "set 0 string - %s %s 0" % (enc(b"K" * n + b"c"), enc(b"fifth")), "getall 0", "reread 1 0", "getall 1"]
         s = Scenario(cmds, tags=("twins",)); s.field, s.n = "twins", n
-        out.append(s)
+        if n <= 65536 + 2: out.append(s)          # (the megabyte point: five names of that size through every getter takes minutes)
         # setters with long arguments
         cmds = ["newini 0", "set 0 string %s %s %s 0" % (enc(b"G" * n), enc(b"K" * n), enc(big)), "getall 0", "reread 1 0", "getall 1"]
         s = Scenario(cmds, tags=("setter",)); s.field, s.n = "setter", n
